@@ -14,11 +14,15 @@ def t3(rep, tier, seed):
     for algo in ("greedy", "roundrobin"):
         dom = [{"algo": algo, "values": v, "param": k} for v in ms + rnd for k in range(1, K + 1)]
         dom += [{"algo": algo, "values": v, "param": k, "fmt": "dict"} for v in ms[::9] for k in (2, 3)]
+        # many bins (a fast path for large bin counts would only show here) and adversarially ordered names
+        dom += [{"algo": algo, "values": v, "param": k} for v in rnd if len(v) >= 10 for k in (9, 12, 17)]
+        dom += [{"algo": algo, "values": v, "param": 3, "fmt": f} for v in rnd[::4] for f in ("names:asc", "names:desc", "names:valley", "names:pyramid")]
         rep.add(H.run_case(f"C14/T3/{algo}/textbook-rule", f"prtpy.partitioning::{algo}", T.c14_case, dom,
-                           f"all multisets n<={N} of 0..{V} x numbins 1..{K} + seeded random (n<=12); reference transcription in spec/oracles.py"))
+                           f"all multisets n<={N} of 0..{V} x numbins 1..{K} + seeded random (n<=12), also with 9/12/17 bins and with names ordered against the values; reference transcription in spec/oracles.py"))
     base = pack_inputs(tier, rng)
     for algo in ("ff", "ffd", "bf", "bfd"):
         dom = [{"algo": algo, "values": d["values"], "param": d["B"], **({"scale": d["scale"]} if d.get("scale") else {})} for d in base]
+        dom += [{"algo": algo, "values": d["values"], "param": d["B"], "fmt": f} for d in base[::23] if not d.get("scale") for f in ("names:asc", "names:desc", "names:valley", "names:pyramid")]
         rep.add(H.run_case(f"C14/T3/{algo}/textbook-rule", f"prtpy.packing::{algo}", T.c14_case, dom, "B(N,Z) of C03 incl. exact fills, ties, multiples of 1/8"))
     cbase = cover_inputs(tier, rng)
     # thresholds binsize/2 and binsize/3 are hit exactly for Z in {6,12}
